@@ -21,8 +21,9 @@
   Adapter: the `gap` parameter of the models has type `Table α → Except Err α`; the norms of ICG.Model.Shapley take
   `n lo hi`.  `gapL1 t = .ok (l1 t.n t.lo t.hi)` etc. (Lemmas/ComposeCore) are exactly `gap_func(incomplete_game)`.
 
-  What could NOT be composed (details in the section at the end): C13's `Hyps` for exploitability — its field
-  `gtot : GapTotal gap` ("never raises, on EVERY table") is false for exploitability (`gapTotal_iff`).
+  C13's `Hyps` asks the gap to be defined on the tables the environment hands it (`C13.GapDefined`, tables of
+  `P.n` players knowing the initial coalitions), not on every table: that holds for all four gaps (`Gap.defined`;
+  exploitability is NOT total, `gapTotal_iff`, but is defined whenever N is known).
 -/
 import ICG.Lemmas.ComposeSearch
 import ICG.Props.C07L2
@@ -304,7 +305,7 @@ theorem NormGap.total (g : NormGap) : GapTotal (g.fn (α := α)) := by
     parameters -/
 theorem hyps_norm (k : Computer) (g : NormGap) (hP : P.WF) (hmin : P.Minimal) :
     C13.Hyps (k.run : Table α → _) g.fn P :=
-  hyps_of g.facts g.total k hP hmin
+  hyps_of g.facts (C13.GapDefined.of_total g.total P) k hP hmin
 
 /-- e.g. greedy: at every reachable state with a valid action the solver succeeds, returns a valid action of
     maximal immediate reward (lowest index among those), and leaves the environment as it found it -/
@@ -487,32 +488,86 @@ theorem gapTotal_iff (g : Gap) : GapTotal (g.fn (α := α)) ↔ g ≠ .expl := b
     · exact ⟨_, rfl⟩
     · exact absurd rfl hg
 
-/-- **C13's `Hyps` is a theorem** for every registered computer and l1 / l∞ / l2² -/
-theorem hyps (k : Computer) (g : Gap) (hg : g ≠ .expl) (hP : P.WF) (hmin : P.Minimal) :
+/-- every one of the four gap functions is defined on the tables the environment hands it (tables of `P.n` players
+    that know the initial coalitions, N among them): the norms never raise, exploitability is defined exactly when N
+    is known (`C05.defined_iff`).  No condition on the hidden game. -/
+theorem Gap.defined (g : Gap) (hmin : P.Minimal) : C13.GapDefined (g.fn (α := α)) P := by
+  intro t hn hk
+  cases g
+  · exact ⟨_, rfl⟩
+  · obtain ⟨m, hm, _⟩ := GapMono.linf_nonneg t.n t.lo t.hi
+    exact ⟨m, hm⟩
+  · exact ⟨_, rfl⟩
+  · refine (C05.defined_iff t).mpr ?_
+    show t.known (2 ^ t.n - 1) = true
+    rw [hn]
+    exact hk _ hmin.2.1
+
+/-- **C13's `Hyps` is a theorem** for every registered computer and ALL four gap functions, exploitability
+    included (its field `gtot` asks for definedness on the tables the environment produces, `C13.GapDefined`) -/
+theorem hyps (k : Computer) (g : Gap) (hP : P.WF) (hmin : P.Minimal) :
     C13.Hyps (k.run : Table α → _) g.fn P :=
-  hyps_of g.facts ((gapTotal_iff g).mpr hg) k hP hmin
+  hyps_of g.facts (g.defined hmin) k hP hmin
 
-theorem greedy_real (k : Computer) (g : Gap) (hg : g ≠ .expl) (worst : Bool) (hP : P.WF) (hmin : P.Minimal)
+/-- **greedy / worst-greedy with the real computers and all four gaps** (C13 `greedy_spec` / `greedy_worst_spec`
+    with `Hyps` discharged): at every reachable state with a valid action — whatever the hidden game — the solver
+    succeeds, returns a valid action whose immediate reward is maximal (`worst = false`) resp. minimal
+    (`worst = true`) among the valid actions, the lowest index among those, and leaves the environment as it found it -/
+theorem greedy_real (k : Computer) (g : Gap) (worst : Bool) (hP : P.WF) (hmin : P.Minimal)
     (h : Reach (k.run : Table α → _) g.fn P e s) (hne : e.validActions ≠ []) :
-    ∃ e' a, greedy k.run g.fn worst e = .ok (e', a) ∧ EnvEq e' e ∧ Inv (k.run : Table α → _) P e' s ∧
-      a ∈ e.validActions := by
+    ∃ e' a m, greedy k.run g.fn worst e = .ok (e', a) ∧ EnvEq e' e ∧ Inv (k.run : Table α → _) P e' s ∧
+      a ∈ e.validActions ∧ C13.stepReward k.run g.fn e a = some m ∧
+      (∀ b ∈ e.validActions, ∀ rb, C13.stepReward k.run g.fn e b = some rb →
+        if worst then m ≤ rb else rb ≤ m) ∧
+      (∀ b ∈ e.validActions, C13.stepReward k.run g.fn e b = some m → a ≤ b) := by
   cases worst
-  · obtain ⟨e', a, _, h1, h2, h3, h4, _⟩ :=
-      C13.greedy_spec (hyps k g hg hP hmin) (C09.reach_inv_real k hP h) hne
-    exact ⟨e', a, h1, h2, h3, h4⟩
-  · obtain ⟨e', a, _, h1, h2, h3, h4, _⟩ :=
-      C13.greedy_worst_spec (hyps k g hg hP hmin) (C09.reach_inv_real k hP h) hne
-    exact ⟨e', a, h1, h2, h3, h4⟩
+  · obtain ⟨e', a, m, h1, h2, h3, h4, h5, h6, h7⟩ :=
+      C13.greedy_spec (hyps k g hP hmin) (C09.reach_inv_real k hP h) hne
+    exact ⟨e', a, m, h1, h2, h3, h4, h5, fun b hb rb hrb => by simpa using h6 b hb rb hrb, h7⟩
+  · obtain ⟨e', a, m, h1, h2, h3, h4, h5, h6, h7⟩ :=
+      C13.greedy_worst_spec (hyps k g hP hmin) (C09.reach_inv_real k hP h) hne
+    exact ⟨e', a, m, h1, h2, h3, h4, h5, fun b hb rb hrb => by simpa using h6 b hb rb hrb, h7⟩
 
-example : ∃ (e e' : Env Rat) (a : Nat),
-    Reach Computer.sa.run Gap.l2sq.fn Ex.P3 e (Spec.init C07.exVq C07.exVq) ∧
-    greedy Computer.sa.run Gap.l2sq.fn true e = .ok (e', a) ∧ EnvEq e' e ∧ a ∈ e.validActions := by
-  obtain ⟨e, he⟩ := Ex.reach0 .sa Gap.l2sq.fn C07.exVq C07.exVq
+/-- for a hidden game of the class the immediate rewards greedy compares are all ≤ 0, and the one it picks is not
+    smaller than the current reward -/
+theorem greedy_reward_bounds (k : Computer) (g : Gap) (hP : P.WF) (hmin : P.Minimal)
+    (h : Reach (k.run : Table α → _) g.fn P e s) (hcl : InClass k P.n s.full) (hside : g.side s.full)
+    {a : Nat} {m : α} (hm : C13.stepReward k.run g.fn e a = some m) :
+    ∃ r, e.reward g.fn = .ok r ∧ r ≤ m ∧ m ≤ 0 := by
+  unfold C13.stepReward at hm
+  cases hs : step k.run g.fn e a with
+  | error x => rw [hs] at hm; cases hm
+  | ok p =>
+    obtain ⟨e', out⟩ := p
+    rw [hs] at hm
+    cases hm
+    exact step_reward_mono k g hP hmin h hcl hside hs
+
+/-- all four gaps, exploitability included, both rules (3 players over `Rat`, reference computer) -/
+example (g : Gap) (worst : Bool) : ∃ (e e' : Env Rat) (a : Nat) (m r : Rat),
+    Reach Computer.sa.run g.fn Ex.P3 e (Spec.init C07.exVq C07.exVq) ∧
+    greedy Computer.sa.run g.fn worst e = .ok (e', a) ∧ EnvEq e' e ∧ a ∈ e.validActions ∧
+    C13.stepReward Computer.sa.run g.fn e a = some m ∧ e.reward g.fn = .ok r ∧ r ≤ m ∧ m ≤ 0 := by
+  obtain ⟨e, he⟩ := Ex.reach0 .sa g.fn C07.exVq C07.exVq
   have hne : e.validActions ≠ [] := by
     have h0 : 0 ∈ e.validActions :=
       (C09.validActions_spec (C09.reach_inv_real .sa Ex.P3_wf he) 0).mpr (by decide)
     exact List.ne_nil_of_mem h0
-  obtain ⟨e', a, h1, h2, _, h4⟩ := greedy_real .sa .l2sq (by decide) true Ex.P3_wf Ex.P3_min he hne
+  obtain ⟨e', a, m, h1, h2, _, h4, h5, _⟩ := greedy_real .sa g worst Ex.P3_wf Ex.P3_min he hne
+  obtain ⟨r, hr, hrm, hm0⟩ := greedy_reward_bounds .sa g Ex.P3_wf Ex.P3_min he (Ex.exVq_class .sa trivial)
+    (Ex.exVq_side g) h5
+  exact ⟨e, e', a, m, r, he, h1, h2, h4, h5, hr, hrm, hm0⟩
+
+/-- exploitability with the cached computer, spelled out -/
+example : ∃ (e e' : Env Rat) (a : Nat),
+    Reach Computer.sac.run Gap.expl.fn Ex.P3 e (Spec.init C07.exVq C07.exVq) ∧
+    greedy Computer.sac.run Gap.expl.fn false e = .ok (e', a) ∧ EnvEq e' e ∧ a ∈ e.validActions := by
+  obtain ⟨e, he⟩ := Ex.reach0 .sac Gap.expl.fn C07.exVq C07.exVq
+  have hne : e.validActions ≠ [] := by
+    have h0 : 0 ∈ e.validActions :=
+      (C09.validActions_spec (C09.reach_inv_real .sac Ex.P3_wf he) 0).mpr (by decide)
+    exact List.ne_nil_of_mem h0
+  obtain ⟨e', a, _, h1, h2, _, h4, _⟩ := greedy_real .sac .expl false Ex.P3_wf Ex.P3_min he hne
   exact ⟨e, e', a, he, h1, h2, h4⟩
 
 /-- **C16, step, end to end**, all four gap functions -/
@@ -814,16 +869,13 @@ example : ∃ t' b, getBestExploitability Computer.sac.run gapL2 (C07.exTr exKno
 
 end real
 
-/-! ### what cannot be composed as the definitions stand
+/-! ### what is not composed, and why
 
-* **C13 `Hyps` for exploitability.**  `C13.Hyps` has the field `gtot : GapTotal gap`, i.e. `∀ t, ∃ g, gap t = .ok g`
-  — "the gap function never raises, on EVERY table".  For exploitability this is false (`gapTotal_iff`: it raises
-  ValueError when the grand coalition is unknown, `C05.undefined`), so `greedy_spec` / `greedy_worst_spec` /
-  `actionValues_spec` cannot be instantiated with `Gap.expl` without changing `Props/C13` (weakening `gtot` to
-  "defined on every table of `P.n` players that knows the coalitions of `P.ik`" would suffice: that is what
-  `step_succeeds` above proves for all four gaps at reachable states).  No totalising adapter was written: it
-  would make the theorem true for the wrong reason.  Everything of C09 / C08-undo / C16 / C11 / expected-greedy IS
-  composed for exploitability.
+* **C13 `Hyps` for exploitability** — composed since `Hyps.gtot` was weakened from `GapTotal gap` ("never raises on
+  ANY table", false for exploitability, `gapTotal_iff`) to `C13.GapDefined gap P` ("defined on the `P.n`-player
+  tables that know the initial coalitions"), which is all the proofs of C13 use and is true for all four gaps
+  (`Gap.defined`).  C09's own `step_succeeds` / `unstep_succeeds` still take `GapTotal`; `step_succeeds` /
+  `unstep_succeeds` above are their versions for the real gaps.
 * **C12** (`evaluate`) is stated over an abstract environment `EnvOps` and an abstract solver; its hypotheses
   (`Isolated`, `Stateless`, …) are about sharing of random sources, not conclusions of C01–C08: nothing to compose.
 * nothing else: the l2 norm itself (no computable square root in the executable model) is covered over ℝ by
